@@ -91,29 +91,26 @@ def canon(run, before):
       e['trial'] = rid(key, e['trial'])
       e.pop('stop', None)
     st['es'].sort(key=lambda e: e['trial'])
+  # what the property compares of a response: success or error class, and the trials handed out
   resps = []
   for r in run['resps']:
-    r = copy.deepcopy(r)
     if r is None:
       resps.append('NO-RESPONSE')
       continue
     k = r.get('k')
+    key = ('o', 's')
     if k == 'err':
       code = r['code']
-      resps.append({'k': 'err', 'class': code if code in ('FAILED_PRECONDITION', 'NOT_FOUND', 'ALREADY_EXISTS') else 'OTHER:' + code})
-      continue
-    if k == 'es':
-      resps.append({'k': 'es'})
-      continue
-    key = ('o', 's')
-    if k == 'trial':
-      r['v']['id'] = rid(key, r['v']['id'])
-    if k == 'op':
-      if isinstance(r['v']['result'], list):
-        r['v']['result'] = [rid(key, i) for i in r['v']['result']]
-      for t in r.get('handed', []):
-        t['id'] = rid(key, t['id'])
-    resps.append(r)
+      resps.append({'err': code if code in ('FAILED_PRECONDITION', 'NOT_FOUND', 'ALREADY_EXISTS') else 'OTHER:' + code})
+    elif k == 'mdError':
+      resps.append({'err': 'NOT_FOUND'})
+    elif k == 'op':
+      resps.append({'ok': 'op', 'done': r['v']['done'], 'error': r['v']['result'] == 'error',
+                    'handed': [[rid(key, t['id']), t['params'], t['state'], t['client']] for t in r.get('handed', [])]})
+    elif k == 'trial' and 'v' in r:
+      resps.append({'ok': 'trial', 'id': rid(key, r['v']['id'])})
+    else:
+      resps.append({'ok': k})
   return json.dumps({'resps': resps, 'final': final}, sort_keys=True)
 
 
@@ -183,6 +180,12 @@ def pairs_for(tier, rng):
 
 
 def run(c):
+  # translator: regenerate the lock/datastore-call shape from the current source (a proof obligation)
+  from translators import servicer_shape
+  shape, unknown, missing = servicer_shape.write(core.REPO, core.LEAN_DIR)
+  c.add_obligation('translator: every RPC method found and every lock/datastore expression recognised',
+                   not unknown and not missing, '; '.join(unknown + ['missing ' + m for m in missing]))
+  c.coverage_extra['servicer_shape'] = {k: [[cname, list(locks)] for cname, locks in v] for k, v in shape.items()}
   c.proof_stage()
   tasks = pairs_for(c.tier, c.rng)
   backends = ['ram'] if c.tier == 'quick' else ['ram', 'sqlmem']
